@@ -571,7 +571,9 @@ fn anchored_layer(rg: &Path, tier: Tier) -> AnchoredResult {
     let sources = ["ignore", "gitignore", "ignore-file", "global", "exclude"];
     // work items
     // (rule set, roots, source, --hidden)
-    let mut work: Vec<(usize, usize, usize, bool)> = vec![];
+    // (rule set, roots, source, --hidden, rules written in the opposite case
+    // and --ignore-file-case-insensitive given)
+    let mut work: Vec<(usize, usize, usize, bool, bool)> = vec![];
     for ri in 0..rule_sets.len() {
         for ro in 0..root_sets.len() {
             for si in 0..sources.len() {
@@ -584,9 +586,12 @@ fn anchored_layer(rg: &Path, tier: Tier) -> AnchoredResult {
                 if si == 4 && (ri + ro) % tier.pick(3, 1) != 1 % tier.pick(3, 1) {
                     continue;
                 }
-                work.push((ri, ro, si, false));
+                work.push((ri, ro, si, false, false));
                 if ri + n_hidden_sets >= rule_sets.len() {
-                    work.push((ri, ro, si, true));
+                    work.push((ri, ro, si, true, false));
+                }
+                if (ri + 2 * ro + si) % tier.pick(4, 2) == 0 {
+                    work.push((ri, ro, si, ri + n_hidden_sets >= rule_sets.len(), true));
                 }
             }
         }
@@ -710,10 +715,11 @@ fn anchored_layer(rg: &Path, tier: Tier) -> AnchoredResult {
                     let _ = std::fs::remove_dir_all(scratch.path.join("home/.config"));
                     let (label, cwd, roots, extra, want): (String, &str, Vec<&str>, Vec<String>, BTreeSet<String>);
                     if i < work.len() {
-                        let (ri, ro, si, hidden) = work[i];
+                        let (ri, ro, si, hidden, ci) = work[i];
                         let lines = &rule_sets[ri];
                         let (c, r) = &root_sets[ro];
-                        let text: String = lines.iter().map(|l| format!("{}\n", l)).collect();
+                        let swap = |l: &str| -> String { l.chars().map(|ch| if ch.is_ascii_uppercase() { ch.to_ascii_lowercase() } else { ch.to_ascii_uppercase() }).collect() };
+                        let text: String = lines.iter().map(|l| if ci { format!("{}\n", swap(l)) } else { format!("{}\n", l) }).collect();
                         let rules_file = scratch.path.join("extra.rules");
                         if si == 0 {
                             std::fs::write(pdir.join(".ignore"), &text).unwrap();
@@ -733,6 +739,9 @@ fn anchored_layer(rg: &Path, tier: Tier) -> AnchoredResult {
                         cwd = c;
                         roots = r.clone();
                         let mut ex: Vec<String> = if hidden { vec!["--hidden".to_string()] } else { vec![] };
+                        if ci {
+                            ex.push("--ignore-file-case-insensitive".to_string());
+                        }
                         if si == 2 {
                             ex.push("--ignore-file".to_string());
                             ex.push(rules_file.display().to_string());
@@ -750,7 +759,7 @@ fn anchored_layer(rg: &Path, tier: Tier) -> AnchoredResult {
                             .filter(|(f, r)| !anchored_ignored(lines, f, r))
                             .map(|(f, _)| f.to_string())
                             .collect();
-                        label = format!("{} {:?}{} | cwd P/{} | roots {:?}", match si { 2 => "--ignore-file".to_string(), 3 => "~/.config/git/ignore".to_string(), 4 => "P/.git/info/exclude".to_string(), _ => format!("P/.{}", sources[si]) }, lines, if hidden { " --hidden" } else { "" }, c, r);
+                        label = format!("{} {:?}{} | cwd P/{} | roots {:?}", match si { 2 => "--ignore-file".to_string(), 3 => "~/.config/git/ignore".to_string(), 4 => "P/.git/info/exclude".to_string(), _ => format!("P/.{}", sources[si]) }, lines, format!("{}{}", if hidden { " --hidden" } else { "" }, if ci { " (written in the opposite case, --ignore-file-case-insensitive)" } else { "" }), c, r);
                         if want.len() < under(cwd, &roots).len() {
                             local.nontrivial += 1;
                         }
